@@ -64,10 +64,10 @@ fn visit(env: &Env, s: &str, st: &mut Stats) {
 }
 
 pub fn run(env: &Env, run: &Run) -> (Stats, Coverage) {
-    let sigma = sigma06();
+    let sigma = crate::sig::rotated(env, sigma06(), run.seed);
     let n = run.tier.pick(4, 5);
     let mut st = strtree(&sigma, n, |_c, s, st| visit(env, s, st));
-    let sp = sigma_space();
+    let sp = crate::sig::rotated(env, sigma_space(), run.seed);
     let n2 = run.tier.pick(6, 8);
     st.merge(strtree(&sp, n2, |_c, s, st| visit(env, s, st)));
     st.merge(cpsweep(|c, st| {
